@@ -743,7 +743,10 @@ static void run_triple(unsigned long long seed, int L, int d, int codec)
 
 	if (!do_version(&seed_login)) return;
 	if (!do_login(seed_login)) return;
-	drv_srv_switch_codec(cx.uid, codec);
+	/* like the real client, which sends 'S' only when it found something better than the protocol default:
+	   a Base32 session relies on the slot starting out as Base32, whatever its previous owner negotiated */
+	if (codec != 0)
+		drv_srv_switch_codec(cx.uid, codec);
 	do_ping();
 	if (triple_failed) return;
 	do_probe(2 + (int)drv_below(2046));
